@@ -192,7 +192,8 @@ def build(sc):
         rec.callback("loss")
         if sc.tables.startswith("spec:"):      # Loss(y, p) of spec/IncExplainer.tla
             if sc.tables == "spec:scalar":
-                val = sum((F(y_true) * ((0 if k == "output" else k) + 1) - F(pv)) ** 2 for k, pv in y_pred.items()) - F(y_true)
+                val = sum((F(y_true) * ((0 if k == "output" else k) + 1) - F(pv)) ** 2 for k, pv in y_pred.items()) - F(y_true) \
+                    + sc.loss_offset
             else:
                 val = sum(F((k + 1) * (2 - y_true)) * F(pv) for k, pv in y_pred.items()) - F(y_true * len(y_pred))
         else:
